@@ -151,9 +151,20 @@ class World:
         return out
 
     def _decorate(self, spec, f):
+        ntc = spec.get("ntc")
+        if ntc == "below":
+            f = typing.no_type_check(f)
+        out = self._decorate0(spec, f)
+        if ntc == "above":
+            out = typing.no_type_check(out)
+        return out
+
+    def _decorate0(self, spec, f):
         style = spec["style"]
         if style == "plain":
             return f
+        if style == "tconly":
+            return TCS[spec["tc"]](f)
         if style == "none":
             return jaxtyped(f, typechecker=None)
         tc = TCS[spec["tc"]]
@@ -297,6 +308,8 @@ class ThreadRun:
         self.gen_pending = {}
         self.current_next = None
         self.body_runs = 0
+        self.clocks = {}  # path -> (global event index at begin, at end)
+        self.last_call = None
 
 
 class Interp:
@@ -307,6 +320,7 @@ class Interp:
         self.world = World(scn, self)
         self.observer = observer
         self._tl = __import__("threading").local()
+        self.clock = 0  # simulator's global event sequence number (only one thread runs at a time)
 
     # -- per thread
     def start_thread(self, tid):
@@ -334,11 +348,15 @@ class Interp:
         sc = seams.state().sched
         if sc is not None:
             sc.op_begin(op.get("_id", path))
+        self.clock += 1
+        t0 = self.clock
         try:
             out = getattr(self, "op_" + op["op"])(op, path)
         finally:
             if sc is not None:
                 sc.op_end()
+            self.clock += 1
+            run.clocks[path] = (t0, self.clock)
         self.rec(path, op["op"], out)
         if obs is not None and hasattr(obs, "post"):
             obs.post(self, run, op, path, out)
@@ -443,6 +461,16 @@ class Interp:
         finally:
             sys.modules.pop(name, None)
 
+    def op_mark_ntc(self, op, path):
+        """typing.no_type_check applied to an already decorated (and possibly already called) callable."""
+        try:
+            f = self.world.fn(op["fn"])
+            out = typing.no_type_check(f)
+            self.world.fns[op["fn"]] = out
+            return "marked"
+        except BaseException as e:
+            return exc_outcome(e)
+
     def op_toggle(self, op, path):
         try:
             jaxtyping.config.update(op["item"], op["value"])
@@ -515,6 +543,14 @@ class Interp:
 
     def op_call(self, op, path):
         run = self.run
+        if op.get("_twin_of"):
+            # the plain twin re-issues the PREVIOUS call (same arguments, body, return value) on another callable:
+            # derived at run time so that the minimiser cannot make the two diverge
+            if run.last_call is None:
+                return {"skipped": "no call to be the twin of"}
+            op = dict(run.last_call, fn="P" + run.last_call["fn"][1:], _twin_of=True)
+        else:
+            run.last_call = op
         spec = self.scn["fns"][op["fn"]]
         kind = spec.get("kind", "fn")
         try:
@@ -618,7 +654,7 @@ def warm_up():
 
 
 def run_threads(scn, programs, sched_spec, rnd, observer=None, plans=None, yield_on_seams=True,
-                opcode_storage=False, watchdog_s=60.0, build=True, interp=None):
+                opcode_storage=False, watchdog_s=60.0, build=True, interp=None, thread_init=None):
     """Execute the given per-thread programs under the given schedule policy.
     Returns (interp, runs, scheduler)."""
     from . import sched as S
@@ -643,6 +679,8 @@ def run_threads(scn, programs, sched_spec, rnd, observer=None, plans=None, yield
             r = interp.start_thread(i)
             runs[i] = r
             try:
+                if thread_init is not None:
+                    thread_init(i)
                 interp.exec_ops(programs[i], "")
             finally:
                 r.final = snapshot()
